@@ -306,13 +306,18 @@ Fixpoint pop_n (n : nat) (vs : list value) : option (list value * list value) :=
             end
   end.
 
-Definition is_loop (e : expr) : bool :=
-  match e with EWhile _ _ _ | EFor _ _ _ _ => true | _ => false end.
+(* is_running_loop: a loop entry that has started (PartiallyEvaluated).  A
+   NotEvaluated loop entry is a later statement of the block being left. *)
+Definition is_running_loop (s : estate) (e : expr) : bool :=
+  match s, e with
+  | SPart _, EWhile _ _ _ => true
+  | SPart _, EFor _ _ _ _ => true
+  | _, _ => false
+  end.
 
-(* Does finishing this continuation entry pop a binding block?  (the block
-   discipline of eval_expr: If/Match in EvaluatedSubexpressions pop the
-   branch block; While/For in DoneRunBlock pop the body block; For in
-   EvaluatedSubexpressions pops the terminal block.) *)
+(* pending_step_owns_block: does executing this continuation entry pop a binding block?  If/Match/For
+   in EvaluatedSubexpressions pop the branch / terminal block; While/For in
+   DoneRunBlock pop the body block. *)
 Definition entry_pops (s : estate) (e : expr) : bool :=
   match s, e with
   | SDone, EIf _ _ _ _ => true
@@ -323,62 +328,67 @@ Definition entry_pops (s : estate) (e : expr) : bool :=
   | _, _ => false
   end.
 
-(* eval_break: unwind to the innermost loop entry.  Discarded If/Match
-   entries that own a binding block pop it now (`discarded_step_owns_block`).
-   The loop entry itself is replaced by EvaluatedSubexpressions: a While
-   leaving its body pops the body block; a For leaving its body pops the
-   saved iteree and index and keeps the body block for the
-   EvaluatedSubexpressions step to pop; a For still evaluating its iterated
-   value pops the index and pushes a block for that step. *)
-Definition discarded_owns_block (s : estate) (e : expr) : bool :=
-  match s, e with
-  | SDone, EIf _ _ _ _ => true
-  | SDone, EMatch _ _ _ => true
-  | _, _ => false
-  end.
-
 Definition pop_block_list (bs : list block) : option (list block) :=
   match bs with
   | _ :: (b :: bs') => Some (b :: bs')
   | _ => None
   end.
 
+(* eval_break: unwind to the innermost RUNNING loop entry.  Discarded entries
+   that own a binding block pop it.  The loop entry is replaced by
+   EvaluatedSubexpressions: a While leaving its body pops the body block; a
+   For leaving its body pops the saved iteree and index and keeps the body
+   block for the EvaluatedSubexpressions step to pop; a For still evaluating
+   its iterated value pops the index and pushes a block for that step. *)
 Fixpoint break_unwind (t : list (estate * expr)) (bs : list block) (vs : list value)
   : option (list (estate * expr) * list block * list value) :=
   match t with
   | [] => Some ([], bs, vs)
   | (s, e) :: t' =>
-      match e with
-      | EWhile _ _ _ =>
-          match s with
-          | SPart BDoneRun =>
-              match pop_block_list bs with
-              | Some bs1 => Some ((SDone, e) :: t', bs1, vs)
-              | None => None
-              end
-          | _ => Some ((SDone, e) :: t', bs, vs)
-          end
-      | EFor _ _ _ _ =>
-          match s with
-          | SPart BDoneRun =>
-              match vs with
-              | _ :: _ :: vs' => Some ((SDone, e) :: t', bs, vs')
-              | _ => None
-              end
-          | _ =>
-              match vs with
-              | _ :: vs' => Some ((SDone, e) :: t', [] :: bs, vs')
-              | _ => None
-              end
-          end
-      | _ =>
-          if discarded_owns_block s e then
-            match pop_block_list bs with
-            | Some bs1 => break_unwind t' bs1 vs
-            | None => None
+      if is_running_loop s e then
+        match e with
+        | EFor _ _ _ _ =>
+            match s with
+            | SPart BDoneRun =>
+                match vs with
+                | _ :: _ :: vs' => Some ((SDone, e) :: t', bs, vs')
+                | _ => None
+                end
+            | _ =>
+                match vs with
+                | _ :: vs' => Some ((SDone, e) :: t', [] :: bs, vs')
+                | _ => None
+                end
             end
-          else break_unwind t' bs vs
-      end
+        | _ =>
+            match s with
+            | SPart BDoneRun =>
+                match pop_block_list bs with
+                | Some bs1 => Some ((SDone, e) :: t', bs1, vs)
+                | None => None
+                end
+            | _ => Some ((SDone, e) :: t', bs, vs)
+            end
+        end
+      else if entry_pops s e then
+        match pop_block_list bs with
+        | Some bs1 => break_unwind t' bs1 vs
+        | None => None
+        end
+      else break_unwind t' bs vs
+  end.
+
+(* `return`: discard every pending step of the frame, popping the blocks they own *)
+Fixpoint return_unwind (t : list (estate * expr)) (bs : list block) : option (list block) :=
+  match t with
+  | [] => Some bs
+  | (s, e) :: t' =>
+      if entry_pops s e then
+        match pop_block_list bs with
+        | Some bs1 => return_unwind t' bs1
+        | None => None
+        end
+      else return_unwind t' bs
   end.
 
 Fixpoint continue_unwind (t : list (estate * expr)) (bs : list block)
@@ -386,8 +396,8 @@ Fixpoint continue_unwind (t : list (estate * expr)) (bs : list block)
   match t with
   | [] => Some ([], bs)
   | (s, e) :: t' =>
-      if is_loop e then Some ((s, e) :: t', bs)
-      else if discarded_owns_block s e then
+      if is_running_loop s e then Some ((s, e) :: t', bs)
+      else if entry_pops s e then
         match pop_block_list bs with
         | Some bs1 => continue_unwind t' bs1
         | None => None
@@ -706,7 +716,11 @@ Definition exec (p : prog) (f : frame) (s : estate) (e : expr) : xres :=
       end
   | EReturn m oe =>
       match s with
-      | SDone => XOk (set_todo f []) []
+      | SDone =>
+          match return_unwind (todo f) (blocks f) with
+          | Some bs => XOk (set_blocks (set_todo f []) bs) []
+          | None => XPanic
+          end
       | _ =>
           let f1 := push_todo f SDone e in
           match oe with
